@@ -25,7 +25,9 @@ def _opt_and_then(ctx, o, clos):
     r = call_under(ctx, c, clos, [opt_val(o)])
     if r is None:
         return NONE
-    return Enum(ite(c, r.d, CI(0, 64)), dict(r.pay, **{0: ()}))
+    pay = dict(r.pay)
+    pay.setdefault(0, ())
+    return Enum(ite(c, r.d, CI(0, 64)), pay)
 
 
 @model(r'^std::option::Option::<.*>::unwrap_or_else::<.*>$')
@@ -292,33 +294,33 @@ def _between(c, lo, hi):
     return simp(z3.And(z3.UGE(x, lo), z3.ULE(x, hi)))
 
 
-@model(r'^(core::char::methods::<impl char>|core::num::<impl u8>)::is_ascii_digit$')
+@model(r'^((core|std)::char::methods::<impl char>|core::num::<impl u8>)::is_ascii_digit$')
 def _is_ascii_digit(ctx, p):
     return _between(ctx.deref(p), 48, 57)
 
 
-@model(r'^(core::char::methods::<impl char>|core::num::<impl u8>)::is_ascii_lowercase$')
+@model(r'^((core|std)::char::methods::<impl char>|core::num::<impl u8>)::is_ascii_lowercase$')
 def _is_ascii_lower(ctx, p):
     return _between(ctx.deref(p), 97, 122)
 
 
-@model(r'^(core::char::methods::<impl char>|core::num::<impl u8>)::is_ascii_uppercase$')
+@model(r'^((core|std)::char::methods::<impl char>|core::num::<impl u8>)::is_ascii_uppercase$')
 def _is_ascii_upper(ctx, p):
     return _between(ctx.deref(p), 65, 90)
 
 
-@model(r'^(core::char::methods::<impl char>|core::num::<impl u8>)::is_ascii_alphabetic$')
+@model(r'^((core|std)::char::methods::<impl char>|core::num::<impl u8>)::is_ascii_alphabetic$')
 def _is_ascii_alpha(ctx, p):
     c = ctx.deref(p)
     return b_or(_between(c, 97, 122), _between(c, 65, 90))
 
 
-@model(r'^(core::char::methods::<impl char>|core::num::<impl u8>)::is_ascii$')
+@model(r'^((core|std)::char::methods::<impl char>|core::num::<impl u8>)::is_ascii$')
 def _is_ascii(ctx, p):
     return _between(ctx.deref(p), 0, 127)
 
 
-@model(r'^(core::char::methods::<impl char>|core::num::<impl u8>)::to_ascii_(lower|upper)case$')
+@model(r'^((core|std)::char::methods::<impl char>|core::num::<impl u8>)::to_ascii_(lower|upper)case$')
 def _to_ascii_case(ctx, p):
     c = ctx.deref(p)
     lower = ctx.callee.endswith('lowercase')
@@ -332,7 +334,7 @@ def _to_ascii_case(ctx, p):
     return simp(z3.If(z3.And(z3.UGE(x, 97), z3.ULE(x, 122)), x - 32, x))
 
 
-@model(r'^core::char::methods::<impl char>::to_digit$')
+@model(r'^(core|std)::char::methods::<impl char>::to_digit$')
 def _to_digit(ctx, c, radix):
     if not (isinstance(radix, CI) and radix.v == 10):
         raise Unsupported('to_digit with radix other than 10')
@@ -714,3 +716,306 @@ def _bool_then(ctx, b, clos):
     if v is None:
         return NONE
     return mk_option(b, v)
+
+
+# ------------------------------------------------------------------ more slice / Vec / iterator operations (dense sequences)
+
+def _dense(ctx, p, what):
+    s, a, b = slice_window(ctx, p)
+    if not s.dense():
+        raise Unsupported('%s on a sparse sequence' % what)
+    return s, a, b
+
+
+@model(r'^core::slice::<impl \[.*\]>::windows$')
+def _slice_windows(ctx, p, n):
+    s, a, b = _dense(ctx, p, 'windows')
+    if not isinstance(n, CI) or n.v == 0:
+        raise Unsupported('windows with a symbolic or zero size')
+    return IterV(tuple((True, Ptr(p.root, p.path, (CI(k, 64), CI(k + n.v, 64)))) for k in range(a, b - n.v + 1)))
+
+
+@model(r'^core::slice::<impl \[.*\]>::chunks(_exact)?$')
+def _slice_chunks(ctx, p, n):
+    s, a, b = _dense(ctx, p, 'chunks')
+    if not isinstance(n, CI) or n.v == 0:
+        raise Unsupported('chunks with a symbolic or zero size')
+    out = []
+    k = a
+    exact = ctx.callee.endswith('_exact')
+    while k < b:
+        e = min(k + n.v, b)
+        if exact and e - k < n.v:
+            break
+        out.append((True, Ptr(p.root, p.path, (CI(k, 64), CI(e, 64)))))
+        k = e
+    return IterV(tuple(out))
+
+
+@model(r'^<std::slice::(Windows|Chunks|ChunksExact)<.*> as std::iter::Iterator>::next$')
+def _windows_next(ctx, p):
+    from .models import _iter_next
+    return _iter_next(ctx, p)
+
+
+@model(r'^core::slice::<impl \[.*\]>::copy_from_slice$')
+def _copy_from_slice(ctx, p, q):
+    s, a, b = _dense(ctx, p, 'copy_from_slice')
+    t, c, d = _dense(ctx, q, 'copy_from_slice')
+    if b - a != d - c:
+        ctx.panic_if(True, 'source slice length does not match destination slice length')
+        return X.DIVERGE
+    whole = ctx.deref(Ptr(p.root, p.path))
+    ents = list(s.ents)
+    for k in range(b - a):
+        ents[a + k] = (True, t.ents[c + k][1])
+    ctx.write(Ptr(p.root, p.path), tuple(v for _, v in ents) if isinstance(whole, tuple) else Seq(tuple(ents)))
+    return UNIT
+
+
+@model(r'^core::slice::<impl \[.*\]>::first_mut$')
+def _slice_first_mut(ctx, p):
+    s, a, b = _dense(ctx, p, 'first_mut')
+    if a == b:
+        return NONE
+    return some(Ptr(p.root, p.path + (('i', CI(a, 64)),)))
+
+
+@model(r'^std::vec::Vec::<.*>::insert$')
+def _vec_insert(ctx, p, idx, v):
+    s = ctx.deref(p)
+    if not (isinstance(s, Seq) and s.dense() and isinstance(idx, CI)):
+        raise Unsupported('Vec::insert on a sparse sequence / symbolic index')
+    if idx.v > len(s.ents):
+        ctx.panic_if(True, 'insertion index out of bounds')
+        return X.DIVERGE
+    ctx.write(p, Seq(s.ents[:idx.v] + ((True, v),) + s.ents[idx.v:]))
+    return UNIT
+
+
+@model(r'^std::vec::Vec::<.*>::truncate$')
+def _vec_truncate(ctx, p, n):
+    s = ctx.deref(p)
+    if not (isinstance(s, Seq) and s.dense() and isinstance(n, CI)):
+        raise Unsupported('Vec::truncate on a sparse sequence / symbolic length')
+    ctx.write(p, Seq(s.ents[:n.v]))
+    return UNIT
+
+
+@model(r'^std::vec::Vec::<.*>::clear$')
+def _vec_clear(ctx, p):
+    s = ctx.deref(p)
+    if not isinstance(s, Seq):
+        raise Unsupported('Vec::clear on %r' % (s,))
+    ctx.write(p, Seq(()))
+    return UNIT
+
+
+@model(r'^std::vec::Vec::<.*>::extend_from_slice$')
+def _vec_extend_from_slice(ctx, p, q):
+    s = ctx.deref(p)
+    t, c, d = slice_window(ctx, q)
+    if not isinstance(s, Seq):
+        raise Unsupported('extend_from_slice on %r' % (s,))
+    ctx.write(p, Seq(s.ents + t.ents[c:d]))
+    return UNIT
+
+
+@model(r'^std::vec::Vec::<.*>::swap_remove$')
+def _vec_swap_remove(ctx, p, idx):
+    s = ctx.deref(p)
+    if not (isinstance(s, Seq) and s.dense() and isinstance(idx, CI)):
+        raise Unsupported('Vec::swap_remove on a sparse sequence / symbolic index')
+    if idx.v >= len(s.ents):
+        ctx.panic_if(True, 'swap_remove index out of bounds')
+        return X.DIVERGE
+    ents = list(s.ents)
+    v = ents[idx.v][1]
+    ents[idx.v] = ents[-1]
+    ctx.write(p, Seq(tuple(ents[:-1])))
+    return v
+
+
+def _keyed_extreme(ctx, it, clos, want_max):
+    """max_by_key / min_by_key over integer keys (max keeps the last of equal keys, min the first)"""
+    have, best, bestk = False, None, None
+    for g, v in _ents(ctx, it):
+        pv = ctx.ex.alloc(ctx.st, v)
+        k = call_under(ctx, g, clos, [pv])
+        if k is None:
+            continue
+        if not is_int(k):
+            raise Unsupported('max_by_key / min_by_key with a non-integer key')
+        if best is None:
+            best, bestk, have = v, k, g
+            continue
+        wk = k.w if isinstance(k, CI) else bv(k).size()
+        signed = False
+        t = ('i%d' if signed else 'u%d') % wk
+        better = ctx.ex.binop('Ge' if want_max else 'Lt', k, bestk, t)
+        take = b_and(g, b_or(b_not(have), better))
+        best = ite(take, v, best)
+        bestk = ite(take, k, bestk)
+        have = b_or(have, g)
+    if best is None:
+        return NONE
+    return mk_option(have, best)
+
+
+@model(r'^<.* as std::iter::Iterator>::max_by_key::<.*>$')
+def _iter_max_by_key(ctx, it, clos):
+    t = re.search(r'max_by_key::<(\w+),', ctx.callee)
+    if t and t.group(1).startswith('i'):
+        raise Unsupported('max_by_key with a signed key')
+    return _keyed_extreme(ctx, it, clos, True)
+
+
+@model(r'^<.* as std::iter::Iterator>::min_by_key::<.*>$')
+def _iter_min_by_key(ctx, it, clos):
+    t = re.search(r'min_by_key::<(\w+),', ctx.callee)
+    if t and t.group(1).startswith('i'):
+        raise Unsupported('min_by_key with a signed key')
+    return _keyed_extreme(ctx, it, clos, False)
+
+
+@model(r'^core::num::<impl \w+>::(rem|div)_euclid$')
+def _euclid(ctx, a, b):
+    t, w, s = _w(ctx)
+    if is_zint(a) or is_zint(b):
+        raise Unsupported('euclidean division in integer mode')
+    ex = ctx.ex
+    ctx.panic_if(ex.binop('Eq', b, CI(0, w), t), 'attempt to divide by zero')
+    av, bvv = bv(a), bv(b)
+    safe = z3.If(bvv == 0, z3.BitVecVal(1, w), bvv)
+    if not s:
+        return simp(z3.URem(av, safe) if 'rem' in ctx.callee else z3.UDiv(av, safe))
+    ctx.panic_if(b_and(ex.binop('Eq', a, CI(1 << (w - 1), w), t), ex.binop('Eq', b, CI((1 << w) - 1, w), t)), 'attempt to divide with overflow')
+    r = z3.SRem(av, safe)
+    q = av / safe
+    neg = r < 0
+    r2 = z3.If(neg, z3.If(safe > 0, r + safe, r - safe), r)
+    q2 = z3.If(neg, z3.If(safe > 0, q - 1, q + 1), q)
+    return simp(r2 if 'rem' in ctx.callee else q2)
+
+
+
+# ------------------------------------------------------------------ operators and comparisons through references
+
+_INTS = r'(u8|u16|u32|u64|u128|usize|i8|i16|i32|i64|i128|isize)'
+
+
+def _deref_all(ctx, v):
+    while isinstance(v, (Ptr, PtrIte)):
+        v = ctx.deref(v)
+    return v
+
+
+@model(r'^<&*' + _INTS + r' as std::ops::(Add|Sub|Mul|Div|Rem|BitAnd|BitOr|BitXor|Shl|Shr)<&*' + _INTS + r'>>::\w+$')
+def _ref_arith(ctx, a, b):
+    m = re.match(r'^<&*(\w+) as std::ops::(\w+)<&*(\w+)>>', ctx.callee)
+    t, op, t2 = m.group(1), m.group(2), m.group(3)
+    a, b = _deref_all(ctx, a), _deref_all(ctx, b)
+    ex = ctx.ex
+    w = X.INT_TYPES[t][0]
+    if op in ('Add', 'Sub', 'Mul'):
+        r, f = ex.binop(op + 'WithOverflow', a, b, t)
+        if not ctx.panic_if(f, 'attempt to %s with overflow' % op.lower()):
+            return X.DIVERGE
+        return r
+    if op in ('Div', 'Rem'):
+        if not ctx.panic_if(ex.binop('Eq', b, CI(0, w), t), 'attempt to divide by zero'):
+            return X.DIVERGE
+        return ex.binop(op, a, b, t)
+    if op in ('Shl', 'Shr'):
+        w2 = X.INT_TYPES[t2][0]
+        if not ctx.panic_if(ex.binop('Ge', b, CI(w, w2), t2), 'attempt to shift with overflow'):
+            return X.DIVERGE
+        return ex.binop(op, a, b, t, t2)
+    return ex.binop(op, a, b, t)
+
+
+@model(r'^<&+.* as std::cmp::PartialOrd(<.*>)?>::(lt|le|gt|ge)$')
+def _ref_partial_ord(ctx, a, b):
+    a, b = _deref_all(ctx, a), _deref_all(ctx, b)
+    if not (is_int(a) and is_int(b)):
+        return X.NOT_HANDLED
+    t = re.match(r'^<&+(\w+)', ctx.callee)
+    t = t.group(1) if t and t.group(1) in X.INT_TYPES else None
+    if t is None:
+        return X.NOT_HANDLED
+    op = {'lt': 'Lt', 'le': 'Le', 'gt': 'Gt', 'ge': 'Ge'}[ctx.callee.rsplit('::', 1)[1]]
+    return ctx.ex.binop(op, a, b, t)
+
+
+@model(r'^<\[.*; \d+\] as std::ops::Index(Mut)?<std::ops::Range(From|To|Inclusive|ToInclusive|Full)?(<usize>)?>>::index(_mut)?$')
+def _array_index_range(ctx, p, r):
+    return _index_range_any(ctx, p, r)
+
+
+@model(r'^<(\[.*\]|std::vec::Vec<.*>) as std::ops::Index(Mut)?<std::ops::Range(To|Inclusive|ToInclusive|Full)(<usize>)?>>::index(_mut)?$')
+def _slice_index_range_more(ctx, p, r):
+    return _index_range_any(ctx, p, r)
+
+
+@model(r'^<(\[.*\]|std::vec::Vec<.*>) as std::ops::IndexMut<std::ops::Range(From)?<usize>>>::index_mut$')
+def _slice_index_mut_range(ctx, p, r):
+    return _index_range_any(ctx, p, r)
+
+
+def _index_range_any(ctx, p, r):
+    ex = ctx.ex
+    n = ex.slice_len(p, ctx.st)
+    kind = re.search(r'std::ops::(Range\w*)', ctx.callee).group(1)
+    one = CI(1, 64)
+    if kind == 'Range':
+        start, end = r[0], r[1]
+    elif kind == 'RangeFrom':
+        start, end = r[0], n
+    elif kind == 'RangeTo':
+        start, end = CI(0, 64), r[0]
+    elif kind == 'RangeFull':
+        start, end = CI(0, 64), n
+    elif kind == 'RangeToInclusive':
+        start, end = CI(0, 64), ex.binop('Add', r[0], one, 'usize')
+    else:       # RangeInclusive: ('incl', start, end, exhausted)
+        start, end = r[1], ex.binop('Add', r[2], one, 'usize')
+    bad = b_or(ex.binop('Gt', start, end, 'usize'), ex.binop('Gt', end, n, 'usize'))
+    if not ctx.panic_if(bad, 'slice range out of bounds'):
+        return X.DIVERGE
+    base = p.rng[0] if p.rng is not None else CI(0, 64)
+    return Ptr(p.root, p.path, (ex.binop('Add', base, start, 'usize'), ex.binop('Add', base, end, 'usize')))
+
+
+@model(r'^std::result::Result::<.*>::map_or::<.*>$')
+def _res_map_or(ctx, r, dflt, clos):
+    c = _res_is_ok(r)
+    if c is False:
+        return dflt
+    v = call_under(ctx, c, clos, [r.pay[0][0]])
+    if c is True:
+        return v
+    return ite(c, v, dflt)
+
+
+@model(r'^std::result::Result::<.*>::map_or_else::<.*>$')
+def _res_map_or_else(ctx, r, dclos, clos):
+    c = _res_is_ok(r)
+    v = call_under(ctx, c, clos, [r.pay[0][0]]) if c is not False else None
+    d = call_under(ctx, b_not(c), dclos, [r.pay[1][0]]) if c is not True else None
+    if c is True:
+        return v
+    if c is False:
+        return d
+    return ite(c, v, d)
+
+
+@model(r'^std::string::String::as_bytes$')
+def _string_as_bytes(ctx, p):
+    from .models import _str_as_bytes
+    return _str_as_bytes(ctx, p)
+
+
+@model(r'^std::string::String::(bytes|chars)$')
+def _string_bytes_chars(ctx, p):
+    from .models import _str_bytes, _str_chars
+    return _str_bytes(ctx, p) if ctx.callee.endswith('bytes') else _str_chars(ctx, p)
